@@ -216,6 +216,9 @@ def families(tier, horizon=25):
                name="coulomb/cell_veto+face4"),
         scaled(J + "coulomb_atoms/cell_bounded.ini", 4, start=crowded_atoms_face(), horizon=horizon,
                name="coulomb/cell_bounded+face4"),
+        # four atoms in one cell: one occupant and TWO surplus units next to the active one
+        scaled(J + "coulomb_atoms/cell_bounded.ini", 5, start=crowded_atoms_5(), horizon=16,
+               name="coulomb/cell_bounded+crowd5"),
         scaled(J + "coulomb_atoms/cell_veto.ini", 4, start=crowded_atoms_edge(), horizon=12,
                name="coulomb/cell_veto+edge4"),
         scaled(J + "coulomb_atoms/cell_bounded.ini", 4, start=crowded_atoms_edge(), horizon=12,
